@@ -17,12 +17,13 @@ import (
 func TestC07(t *testing.T) {
 	r := vf.Begin(t, "C07")
 	defer r.End()
+	defer perturbReport(r)
 	r.Describe("PRNG schedules on one client connection in a synctest bubble: 1-8 concurrent uploads (sizes 0,1,16383,16384,65535,65536,300000,PRNG; buffered, streamed with declared and with unknown length, 1 B..40 KiB reads) under a server initial window from {0,1,100,16384,65535,100000,1 MiB}, "+
 		"followed by up to 60 steps each sending 1-3 of: stream WINDOW_UPDATE, connection WINDOW_UPDATE, increments taking a window to exactly 2^31-1, SETTINGS_INITIAL_WINDOW_SIZE increase/decrease, SETTINGS_MAX_FRAME_SIZE change; quiescence after every step. "+
 		"The scripted server's ledger is authoritative (decreases bind when the client's ACK is read). Safety on every DATA frame (stream window, connection window, MAX_FRAME_SIZE); progress at every quiescent point; after enough credit every body arrived byte-exact with END_STREAM exactly once, and every SETTINGS was acknowledged. "+
 		"Non-trivial = a settings change in the schedule or at least 2 uploads.",
 		"x/net Framer reads the client's frames correctly; quiescence means the client has reacted to everything sent so far")
-	n := r.Pick(400, 25000)
+	n := r.Pick(800, 25000)
 	for i := 0; i < n; i++ {
 		id := fmt.Sprintf("u%d", i)
 		if !r.Want(i, id) {
@@ -67,6 +68,7 @@ func c07Scenario(r *vf.Run, t *testing.T, id string, rng *rand.Rand) {
 	fail := func(rule, detail string) {
 		if !failed {
 			replay["actions"] = actions
+			replay["sizes"], replay["modes"] = sizes, modes
 			r.Fail("C07."+rule, id, detail, nil, replay)
 		}
 		failed = true
@@ -79,10 +81,9 @@ func c07Scenario(r *vf.Run, t *testing.T, id string, rng *rand.Rand) {
 			return
 		}
 		calls := make([]*rt.Call, k)
-		for i := 0; i < k; i++ {
-			i := i
+		start := func(i int) *rt.Call {
 			tag := fmt.Sprintf("%s.%d", id, i)
-			calls[i] = e.Do(tag, func(req *fasthttp.Request) {
+			return e.Do(tag, func(req *fasthttp.Request) {
 				req.SetRequestURI("https://up.example/" + tag)
 				req.Header.SetMethod("POST")
 				req.Header.Add("x-vtag", tag)
@@ -95,16 +96,22 @@ func c07Scenario(r *vf.Run, t *testing.T, id string, rng *rand.Rand) {
 					req.SetBodyStream(&slowReader{b: bodies[i], chunk: chunks[i]}, -1)
 				}
 			})
+		}
+		for i := 0; i < k; i++ {
+			calls[i] = start(i)
 			rt.Wait() // stream ids follow the tag order
 		}
 		rt.Wait()
 		streamOf := map[int]uint32{}
-		for _, s := range e.RequestsSeen() {
-			tag, _ := s.Get("x-vtag")
-			var idx int
-			fmt.Sscanf(tag[len(id)+1:], "%d", &idx)
-			streamOf[idx] = s.Stream
+		discover := func() {
+			for _, s := range e.RequestsSeen() {
+				tag, _ := s.Get("x-vtag")
+				var idx int
+				fmt.Sscanf(tag[len(id)+1:], "%d", &idx)
+				streamOf[idx] = s.Stream
+			}
 		}
+		discover()
 		if len(streamOf) != k {
 			fail("request-missing", fmt.Sprintf("%d uploads started, %d request streams arrived", k, len(streamOf)))
 			e.Finish()
@@ -142,6 +149,9 @@ func c07Scenario(r *vf.Run, t *testing.T, id string, rng *rand.Rand) {
 			win[0] = st.Conn
 		}
 		check("after the requests were issued")
+		lateLeft := rng.Intn(4)
+		lateStarted := 0
+		defer func() { r.Inc("uploads_started_while_server_frames_in_flight", int64(lateStarted)) }()
 		for step := 0; step < nsteps && !failed; step++ {
 			var burst []byte
 			at := e.P.NFrames()
@@ -212,10 +222,43 @@ func c07Scenario(r *vf.Run, t *testing.T, id string, rng *rand.Rand) {
 					kinds += "f"
 				}
 			}
+			// A late upload starts while the burst is on its way: the request is being set up by the write
+			// loop while the read loop applies the SETTINGS and WINDOW_UPDATEs of the burst. Its window is judged
+			// as that of a stream open from the start (an upper bound of every window it may legitimately have
+			// been opened with: increases count from when they were sent, decreases from their acknowledgement).
+			late := lateLeft > 0 && rng.Intn(5) == 0
+			lateFirst := rng.Intn(2) == 0
+			if late {
+				lateLeft--
+				sz := []int{0, 1, 16384, 65535, 70000, 1 + rng.Intn(100000)}[rng.Intn(6)]
+				sizes = append(sizes, sz)
+				modes = append(modes, 1+rng.Intn(3))
+				chunks = append(chunks, []int{0, 1000, 16384, 20000, 40000}[rng.Intn(5)])
+				b := make([]byte, sz)
+				rng.Read(b)
+				bodies = append(bodies, b)
+				if lateFirst {
+					calls = append(calls, start(k))
+				}
+			}
 			if len(burst) > 0 {
 				e.P.Write(burst)
 			}
+			if late && !lateFirst {
+				calls = append(calls, start(k))
+			}
 			rt.Wait()
+			if late {
+				discover()
+				if _, ok := streamOf[k]; !ok {
+					fail("request-missing", fmt.Sprintf("step %d: an upload started during the step never reached the server", step))
+					break
+				}
+				led.Opened = append(led.Opened, streamOf[k])
+				k++
+				kinds += "L"
+				lateStarted++
+			}
 			check(fmt.Sprintf("after step %d", step))
 		}
 		if !failed {
